@@ -1,5 +1,6 @@
 // Runtime of the E1 harnesses (see common.hpp). Compiled once per tree key.
 #include "common.hpp"
+#include <cfenv>
 
 #include <csignal>
 #include <ctime>
@@ -163,10 +164,26 @@ void write_stats()
     f << j.dump(1) << "\n";
 }
 
+// The floating-point status flags are ambient thread state that earlier, unrelated operations of a program leave
+// behind; results must not depend on them. Every other case starts with all flags raised, the others with all flags
+// clear (no traps are enabled, raising a flag has no effect of its own). A replay runs its case in both states.
+void ambient_fp_flags(bool raised)
+{
+    if (raised) {
+        std::feraiseexcept(FE_ALL_EXCEPT);
+    } else {
+        std::feclearexcept(FE_ALL_EXCEPT);
+    }
+}
+
 CaseScope::CaseScope(std::function<json()> f)
     : dump(std::move(f))
     , prev(current_scope())
 {
+    static unsigned long counter = 0;
+    if (prev == nullptr) {
+        ambient_fp_flags((counter++ & 1) != 0);
+    }
     current_scope() = this;
 }
 CaseScope::~CaseScope()
@@ -411,9 +428,12 @@ int harness_main(int argc, char ** argv)
         for (auto & in : insts()) {
             if (in.name == inst) {
                 CaseScope sc([&] { return c; });
-                Verdict v = in.replay(c);
-                if (v) {
-                    fail_exit(c, *v);
+                for (bool raised : {false, true}) {
+                    ambient_fp_flags(raised);
+                    Verdict v = in.replay(c);
+                    if (v) {
+                        fail_exit(c, *v);
+                    }
                 }
                 fprintf(stderr, "REPLAY-PASS %s\n", inst.c_str());
                 return 0;
